@@ -197,6 +197,12 @@ def pin_wraptext(p, res):
             res.bad(F('PIN-WRAPTEXT', gt, gt.node, q.cond_str(), 'clean_text is indexed without the range check `0 <= pos < len(clean_text)`: IndexError / wrong line for a surplus copy'))
         else:
             res.undecided('get_text guard: %s' % q.cond_str(), 'expected: list text, pos is not None, 0 <= pos < len(clean_text)')
+    from .tablecheck import check_table
+    check_table(p, res, 'PIN-WRAPTEXT', 'abbreviation.convert.insert_text', 'text is appended to a trailing string of the node value, added as a new piece after a field, or becomes the value of an empty node')
+    check_table(p, res, 'PIN-WRAPTEXT', 'abbreviation.convert.deepest_node', 'the deepest node is the last child chain; a node without children is its own deepest node')
+    check_table(p, res, 'PIN-WRAPTEXT', 'abbreviation.convert.insert_href', 'wrapping a URL / e-mail fills an empty href of <a>')
+    check_table(p, res, 'PIN-WRAPTEXT', 'abbreviation.convert.attach_repeater', 'the group repeater is handed to every produced node that has none')
+    check_table(p, res, 'PIN-WRAPTEXT', 'abbreviation.convert.clone_repeater', 'a running repeater is a copy of the written one (count, value, implicit)')
     cs = p.func('abbreviation.convert.convert_statement')
     VS = shape.View(p, cs, keep=('insert_text', 'deepest_node'))
     if VS.find_stmt('$r.count = len($s.clean_text) if $r.implicit and isinstance($s.text, list) else $r.count or 1'):
